@@ -17,6 +17,7 @@ package nathole
 import (
 	"fmt"
 	"net"
+	"sync"
 	"time"
 
 	"github.com/pion/stun/v2"
@@ -62,6 +63,10 @@ type discoverConn struct {
 
 	localAddr   net.Addr
 	messageChan chan *Message
+
+	// closed is closed by Close; the read loop never sends on a closed channel
+	closed    chan struct{}
+	closeOnce sync.Once
 }
 
 func listen(localAddr string) (*discoverConn, error) {
@@ -82,14 +87,12 @@ func listen(localAddr string) (*discoverConn, error) {
 		conn:        conn,
 		localAddr:   conn.LocalAddr(),
 		messageChan: make(chan *Message, 10),
+		closed:      make(chan struct{}),
 	}, nil
 }
 
 func (c *discoverConn) Close() error {
-	if c.messageChan != nil {
-		close(c.messageChan)
-		c.messageChan = nil
-	}
+	c.closeOnce.Do(func() { close(c.closed) })
 	return c.conn.Close()
 }
 
@@ -102,9 +105,14 @@ func (c *discoverConn) readLoop() {
 		}
 		buf = buf[:n]
 
-		c.messageChan <- &Message{
+		// A datagram may arrive (a late STUN response, say) while Discover is returning.
+		select {
+		case c.messageChan <- &Message{
 			Body: buf,
 			Addr: addr.String(),
+		}:
+		case <-c.closed:
+			return
 		}
 	}
 }
